@@ -88,7 +88,10 @@ def _duration_bounds_interrupted(ctx, run, groups, where, location):
         if loops != wl_n:
             continue
         item = elem(loops[-1])
-        task, b = idx(item, 0), idx(item, 1)
+        if isinstance(loops[-1][3], tuple) and len(loops[-1][3]) == 5 and loops[-1][3][0] == "mcall" and loops[-1][3][2] == "items":
+            task, b = idx(item, 0), idx(item, 1)
+        else:
+            task, b = item, ("idx", loops[-1][3], item)     # the key loop over the busy dict (canonical form of .items())
         s, e = idx(b, 0), idx(b, 1)
         for body in bodies:
             alts = [body]
